@@ -8,6 +8,7 @@ use std::panic::{catch_unwind, AssertUnwindSafe};
 use reclass_rs::types::{Mapping, Value};
 use reclass_rs::verif_hooks as hooks;
 
+mod cfgmode;
 mod fsmodes;
 mod pymode;
 
@@ -367,7 +368,8 @@ fn run_case(mode: &str, t: &mut Toks) -> Result<String, String> {
                 _ => Ok("notfloat".into()),
             }
         }
-        "names" | "abs" | "node" | "inv" | "config" | "discover" => fsmodes::run(mode, t),
+        "config" => cfgmode::run(t),
+        "names" | "abs" | "node" | "inv" | "discover" => fsmodes::run(mode, t),
         "py" => pymode::run(t),
         _ => Err(format!("badmode {mode}")),
     }
